@@ -67,14 +67,11 @@ impl<const N: usize, T: Send + Sync> ConIterOfArray<N, T> {
     unsafe fn split_off_right(&self, left_len: usize) -> Vec<T> {
         debug_assert!(left_len <= N);
 
-        let man_array = &mut *self.array.get();
-        let mut array = ManuallyDrop::take(man_array);
-
-        let mut vec = Vec::from_raw_parts(array.as_mut_ptr(), N, 0);
-        let right_vec = vec.split_off(left_len);
-
-        *man_array = ManuallyDrop::new(array);
-        right_vec
+        // moves the remaining elements out one by one; the elements before `left_len` have
+        // already been moved out and must not be touched
+        let array = &mut *self.array.get();
+        let ptr = array.as_mut_ptr();
+        (left_len..N).map(|i| ptr.add(i).read()).collect()
     }
 }
 
@@ -187,6 +184,8 @@ impl<const N: usize, T: Send + Sync> ConcurrentIter for ConIterOfArray<N, T> {
     fn into_seq_iter(self) -> Self::SeqIter {
         let current = self.counter().current();
         let remaining_vec = unsafe { self.split_off_right(current.min(N)) };
+        // every element is now either moved out or owned by `remaining_vec`: `Drop` must not run
+        std::mem::forget(self);
         remaining_vec.into_iter()
     }
 
